@@ -55,6 +55,73 @@ CLAIMED = {
             'DESIGN.md §4 C14'),
 }
 
+
+SEARCH_NOTE = NOTE + ('float32 rounding is outside the model (scores fed to the C++ are exactly representable, k/64); the heap '
+                      'tie-breaking of std::priority_queue is the parameter `pick` of the model (theorems hold for every pick that '
+                      'returns a maximal element); exact pop traces are compared on tie-free inputs, status and scores otherwise; '
+                      'the Cython glue runs as a translation to Python over ctypes (harness/pyx2py.py, pyxrt.py, shim.cpp).')
+CLAIMED.update({
+    'C01': (T_PROOF,
+            'Proved for every sentence length, score matrix, head-uniform grammar, root set, penalty >= 0, beam and any '
+            'tie-breaking: the first parse returned has the maximum model score among all licensed complete parses '
+            '(first_parse_optimal), a failure with step budget left means no licensed parse exists (failure_only_if_none), '
+            'and popped priorities never increase (pops_nonincreasing, any grammar). The model is diffed against the real C++ '
+            'parse_sentence (compiled from /repo each run, pop hook) on ~1500 random problems per run; an exhaustive '
+            'enumeration of all derivations is the oracle for optimality, failure and monotonicity on the real code.',
+            SEARCH_NOTE, 'DESIGN.md §4 C01'),
+    'C02': (T_PROOF,
+            'Proved: every returned item carries a licensed complete parse (leaves = input tokens in order with admitted tags, '
+            'every node a grammar result of its children with its rule id and head direction, allowed root, no unary step at the '
+            'root of a multi-word sentence), 1-best and n-best, any tie-breaking. Model diffed against the real C++ search and, '
+            'through the translated glue, against real depccg.parsing.run trees; an independent validator walks every returned '
+            'real Tree.',
+            SEARCH_NOTE, 'DESIGN.md §4 C02'),
+    'C03': (T_PROOF,
+            'Proved for all categories with unary features: every English result is justified by the schema its label names '
+            '(21-constructor inductive `Justified` stated with the declarative notions of C06), head always left, labels closed '
+            'under a 10-element table, features from the inputs, no bx/gbx over a bare N/NP, and completeness for identical '
+            'matched parts. Model diffed against en.apply_binary_rules on ~50k pairs per run (inventories, seen rules, exhaustive '
+            'small universe, pattern-instantiated/perturbed); an independent per-label schema checker is the oracle.',
+            NOTE, 'DESIGN.md §4 C03'),
+    'C04': (T_PROOF,
+            'Proved for all categories with three-part features: every Japanese result is justified by the schema its symbol '
+            'names (crossed composition keeps the backward slash, generalised composition keeps outer slashes/arguments), head '
+            'always right, labels closed, feature triples from the inputs, unary steps labelled by shape (ADNext/ADNint/ADV0-2/'
+            'OTHER). Model diffed against ja.apply_binary_rules / apply_unary_rules; schema checker + shape-label oracle.',
+            NOTE, 'DESIGN.md §4 C04'),
+    'C09': (T_PROOF,
+            'Proved: the priority of every returned item equals the model score of its derivation (leaf tags + attachment of every '
+            'non-head child by the stored head flags + root attachment - penalty per unary node), any grammar, 1-best and n-best. '
+            'Diffed against the real C++ and against real trees through the glue (scores recomputed from each returned Tree with '
+            'its head flags).',
+            SEARCH_NOTE, 'DESIGN.md §4 C09'),
+    'C10': (T_PROOF,
+            'Proved for n-best mode with step budget left: no unreturned licensed parse scores more than a returned one, fewer '
+            'than k results means all parses were returned, returned derivations are pairwise distinct, results sorted, at most '
+            'k. Diffed against the real C++; oracle = full enumeration (k largest scores, distinctness, order).',
+            SEARCH_NOTE, 'DESIGN.md §4 C10'),
+    'C11': (T_PROOF,
+            'Proved: chunking loses/duplicates/reorders nothing and the batch driver is map-solo for every chunk size and '
+            'process count; shape mismatches are rejected by a function of the shapes alone; the search commutes with any '
+            'injective renumbering of derived categories that fixes the lexical ids (run_rename) - the only thing batch '
+            'history can change in the glue. The real depccg.parsing.run (translated glue + real C++ + real '
+            'multiprocessing.Pool) is compared: alone vs one call vs permuted vs subset vs repeated vs chunked.',
+            SEARCH_NOTE + ' process scheduling, pickling and worker crashes are runtime behaviour observed by the correspondence only.',
+            'DESIGN.md §4 C11'),
+    'C12': (T_PROOF,
+            'Proved: (a) every node of a returned derivation carries the rule id of the grammar result that created it with that '
+            'result\'s category and head direction (part of `Licensed`, returned_valid); (b) guess_combinator_by_triplet returns '
+            'the first rule deriving the node and unk only when none does. Glue-level correspondence checks labels/symbols/heads '
+            'on real trees with grammars whose results for one pair all differ; reader labels checked on printed-and-read trees.',
+            SEARCH_NOTE, 'DESIGN.md §4 C12'),
+    'C16': (T_PROOF,
+            'Proved: the admitted tags of a token are a prefix of its candidates in queue order, within the pruning_size best, all '
+            'pass the probability test, stop at the first failure; with the filter off exactly the top pruning_size; every leaf '
+            'of a returned parse carries an admitted tag. The numeric test exp(s) > exp(best)*beta is a parameter of the model '
+            '(computed by the harness with the same float32 libm expf) - correspondence-only.',
+            SEARCH_NOTE, 'DESIGN.md §4 C16'),
+})
+
 REASON_PENDING = 'check not yet built in this session (model/theorems planned in DESIGN.md §4); not claimed until it runs'
 
 
